@@ -69,6 +69,20 @@ fileMustOpen(FileName fn, IOMode mode)
 	return stream;
 }
 
+/*
+ * Close a stream that was opened for writing.  A write error recorded on the
+ * stream, or a failing flush/close, is reported through the file error handler
+ * exactly as a failing open is.
+ */
+void
+fileCloseOut(FileName fn, FILE *file)
+{
+	int	failed = ferror(file);
+
+	if (fclose(file) != 0) failed = 1;
+	if (failed) (void) (*fileError)(fn, osIoWrMode);
+}
+
 Bool
 fileIsOpenable(FileName fn, IOMode mode)
 {
